@@ -317,15 +317,15 @@ theorem commit_ok_flushes (cfg : Cfg) (s s' : St) (r : Res) (hs : step cfg s (.c
 
 /-! ## trust -/
 
-/-- **untrusted ignored**: a broadcast signed by a peer for which `IsTrustedPeer` is false never
-    changes the replica, whatever it announces. -/
-theorem untrusted_ignored (t : Trust) (r : Rep) (signer : Nat) (walk : List Delta)
-    (h : t.isTrusted signer = false) : recv t r signer walk = r := by
-  simp [recv, h]
+/-- **untrusted ignored**: a message signed by a peer for which `IsTrustedPeer` is false never
+    changes the replica, whatever it announces and whoever forwarded it. -/
+theorem untrusted_ignored (t : Trust) (r : Rep) (forwarder : Nat) (m : Msg)
+    (h : t.isTrusted m.signer = false) : recv t r forwarder m = r := by
+  simp [recv, validate, h]
 
 /-- … and a replica that only ever hears untrusted signers stays as it was. -/
-theorem untrusted_ignored_run (t : Trust) (r : Rep) (msgs : List (Nat × List Delta))
-    (h : ∀ m ∈ msgs, t.isTrusted m.1 = false) :
+theorem untrusted_ignored_run (t : Trust) (r : Rep) (msgs : List (Nat × Msg))
+    (h : ∀ m ∈ msgs, t.isTrusted m.2.signer = false) :
     msgs.foldl (fun r m => recv t r m.1 m.2) r = r := by
   induction msgs generalizing r with
   | nil => rfl
@@ -333,5 +333,34 @@ theorem untrusted_ignored_run (t : Trust) (r : Rep) (msgs : List (Nat × List De
     simp only [List.foldl_cons]
     rw [untrusted_ignored t r m.1 m.2 (h m List.mem_cons_self)]
     exact ih r (fun x hx => h x (List.mem_cons_of_mem _ hx))
+
+/-- **the forwarder does not matter**: the validator's verdict, hence what the replica becomes, is
+    a function of the SIGNER of the message; two deliveries of one message through different
+    forwarders have the same effect. -/
+theorem forwarder_irrelevant (t : Trust) (r : Rep) (f1 f2 : Nat) (m : Msg) :
+    validate t f1 m = validate t f2 m ∧ recv t r f1 m = recv t r f2 m := ⟨rfl, rfl⟩
+
+/-- **the delivery path does not matter**: whatever chain of relays a message travelled along. -/
+theorem delivery_path_irrelevant (t : Trust) (r : Rep) (p1 p2 : List Nat) (m : Msg) :
+    deliver t r p1 m = deliver t r p2 m := rfl
+
+/-- a trusted signer's update is merged even when it arrives through a relay the receiver does
+    not trust (follower behind NAT: chain A – B – C, C trusts only A) … -/
+theorem trusted_signer_through_untrusted_relay (t : Trust) (r : Rep) (relay : Nat) (m : Msg)
+    (hs : t.isTrusted m.signer = true) (_hr : t.isTrusted relay = false) :
+    deliver t r [relay] m = mergeAll m.walk r := by
+  simp [deliver, recv, validate, hs]
+
+/-- … and an untrusted signer's update is dropped even when a trusted peer forwards it. -/
+theorem untrusted_signer_through_trusted_relay (t : Trust) (r : Rep) (relay : Nat) (m : Msg)
+    (hs : t.isTrusted m.signer = false) (_hr : t.isTrusted relay = true) :
+    deliver t r [relay] m = r := by
+  simp [deliver, recv, validate, hs]
+
+/-- both situations exist: peer 2 trusting only peer 0, relay 1 -/
+example : let t : Trust := ⟨2, false, [0]⟩
+    t.isTrusted 0 = true ∧ t.isTrusted 1 = false ∧
+    (deliver t {} [1] ⟨0, [witA]⟩).viewAt 0 = some 9 ∧ (deliver ⟨2, false, [1]⟩ {} [1] ⟨0, [witA]⟩).viewAt 0 = none := by
+  decide
 
 end CV.C02
